@@ -20,6 +20,8 @@ Transcribed (snapshot ef0888e + the two `fix:` commits 406230c, d33d002):
   topic wins, reconciliation through `UpdateEvent`); an event is emitted when the level is not OK or changed
   (`stateChangesOnly`, `noRecoveries` honoured) and collected on the anonymous topic FIRST, the named topic SECOND.
 
+(Commit a7b01dd moved `topics.DeleteTopic` in `CloseTopic`/`DeleteTopic` in front of taking `s.mu`: the order is
+still memory-only bookkeeping first, the `DeleteTopic` transaction last, as modelled.)
 Abstracted: the sorted slice inside `alert.Topic` (C09 proves it faithful: one state per id); message/details/
 duration of an event state; flapping, stateChangesOnly-duration, level reset expressions, inhibitors (not used by
 the harness' task); handler registration churn (C09) — `told` is what a handler registered on the topic all the
@@ -145,6 +147,12 @@ def crashAt (s : Svc) (ops : List Op) (k j : Nat) : Svc :=
 /-- Restart on the crash state and process the remaining data (the operation in flight is lost). -/
 def recover (s : Svc) (ops : List Op) (k j : Nat) : Svc :=
   run (crashAt s ops k j).restart (ops.drop (k + 1))
+
+/-- Any number of process deaths: each `(k, j)` refers to the operations that remain at that time; after the last
+restart the remaining operations are processed to the end. -/
+def multiCrash (s : Svc) (ops : List Op) : List (Nat × Nat) → Svc
+  | [] => run s ops
+  | (k, j) :: cs => multiCrash (crashAt s ops k j).restart (ops.drop (k + 1)) cs
 
 /-! ### The alert node on top of the service -/
 
